@@ -44,7 +44,13 @@ def _effects(tier):
     return c, f, '19 lazy pipelines over a 12-example source, every prefix length and every index'
 
 
-EXTRA = {'C08': [('bounded-demand', _effects)], 'C17': [('bounded-bucket-iter', _bucket)], 'C12': [('bounded-shuffles', _shuffle)],
+def _laws(tier):
+    from harness import laws_standin
+    c, f = laws_standin.search(tier)
+    return c, f, 'every law on list- and dict-backed sources of 0..7 (13) examples, full observation of both sides'
+
+
+EXTRA = {'C16': [('bounded-laws', _laws)], 'C08': [('bounded-demand', _effects)], 'C17': [('bounded-bucket-iter', _bucket)], 'C12': [('bounded-shuffles', _shuffle)],
          'C13': [('bounded-seed-determinism', _shuffle)]}
 
 
